@@ -32,9 +32,9 @@ const SCHEMES: &[&str] = &["s", "http", "a+b.c-d", "urn", "svn+ssh", "x-1.2", "1
 const USERS: &[&str] = &["", "u", "%75", "u:p", "%40", "é", "a;b=c", "~", "%7E", "service-account-with-a-long-name-0123456789", "ééééééééééééééééé", "a@b", "a/b", "\u{E000}", "a#"];
 const HOSTS: &[&str] = &["", "h", "%68", "ex%61mple.org", "caf%C3%A9.x", "café.x", "[v1.é]", "example.org", "1.2.3.4", "[::1]", "[1:2::3.4.5.6]", "[v7.a:b]", "%41", "é.x", "xn--e"];
 const PORTS: &[&str] = &["", "8", "080", "65535", "8a", ":1", "８"];
-const SEGS: &[&str] = &["", "a", "b", ".", "..", "b:c", "1:c", "é", "%2F", "%2e", "@", "a;p=1", "😀", "longer-segment-name", "~", "!$&'()*+,;=", "b..", "...", ".a", "a.", "%2E%2E", "%2e%2e", ".%2E", "%2e", "é:b", "été:2024", "naïve", "ÿ£¿", "は", "%2f", "%2F", "a?b", "a#b", "a/b", "\u{E000}", "%zz", "["];
-const QUERIES: &[&str] = &["", "q", "a:b/c?d", "x=1&y=2", "é", "\u{E000}", "%3F", "/?", "a#b", "%", "\u{FFFE}"];
-const FRAGS: &[&str] = &["", "f", "a/b?c", "x?y/z:@", "é", "%23", "\u{E000}", "x\u{F0000}y", "a#b", "%2"];
+const SEGS: &[&str] = &["\u{43a}\u{43e}\u{442}", "\u{42f}a:b", "men\u{fa}", "\u{ba}:x", "\u{4eba}", "a..", "...", "\u{200e}a\u{202e}", "", "a", "b", ".", "..", "b:c", "1:c", "é", "%2F", "%2e", "@", "a;p=1", "😀", "longer-segment-name", "~", "!$&'()*+,;=", "b..", "...", ".a", "a.", "%2E%2E", "%2e%2e", ".%2E", "%2e", "é:b", "été:2024", "naïve", "ÿ£¿", "は", "%2f", "%2F", "a?b", "a#b", "a/b", "\u{E000}", "%zz", "["];
+const QUERIES: &[&str] = &["\u{202a}q\u{202c}", "a:~:text=b", "", "q", "a:b/c?d", "x=1&y=2", "é", "\u{E000}", "%3F", "/?", "a#b", "%", "\u{FFFE}"];
+const FRAGS: &[&str] = &["history:~:text=the%20first", "\u{200f}x\u{200e}", "", "f", "a/b?c", "x?y/z:@", "é", "%23", "\u{E000}", "x\u{F0000}y", "a#b", "%2"];
 
 /// A value for a component: from its vocabulary (values chosen to matter), or - about one time
 /// in three - drawn from the CHARACTER CLASSES of the component's production, with a length that
@@ -78,7 +78,9 @@ fn pick(r: &mut StdRng, v: &'static [&'static str]) -> String {
 	const UNRESERVED: &[u8] = b"ABCDEFGHIJKLMNOPQRSTUVWXYZabcdefghijklmnopqrstuvwxyz0123456789-._~";
 	const SUB_DELIMS: &[u8] = b"!$&'()*+,;=";
 	const HEX: &[u8] = b"0123456789ABCDEFabcdef";
-	const UCS: &[char] = &['\u{a0}', '\u{e9}', '\u{ff}', '\u{3000}', '\u{d7ff}', '\u{f900}', '\u{feff}', '\u{ffef}', '\u{10000}', '\u{1f600}', '\u{efffd}'];
+	const UCS: &[char] = &['\u{a0}', '\u{e9}', '\u{ff}', '\u{3000}', '\u{d7ff}', '\u{f900}', '\u{feff}', '\u{ffef}', '\u{10000}', '\u{1f600}', '\u{efffd}',
+		// characters that ALIAS a delimiter (a UTF-8 byte = delimiter | 0x80, or the low byte of the code point = delimiter) and bidi marks
+		'\u{ba}', '\u{af}', '\u{bf}', '\u{a3}', '\u{a5}', '\u{ae}', '\u{6c0}', '\u{740}', '\u{fa}', '\u{43a}', '\u{42f}', '\u{43f}', '\u{423}', '\u{440}', '\u{45b}', '\u{45d}', '\u{425}', '\u{42e}', '\u{4e3a}', '\u{202f}', '\u{672f}', '\u{200e}', '\u{200f}', '\u{202a}', '\u{202e}', '\u{2066}', '\u{2069}'];
 	let n = class_len(r);
 	let mut s = String::new();
 	for _ in 0..n {
@@ -325,7 +327,9 @@ fn gen_class_authority(r: &mut StdRng, ascii: bool) -> String {
 	const UNRESERVED: &[u8] = b"ABCDEFGHIJKLMNOPQRSTUVWXYZabcdefghijklmnopqrstuvwxyz0123456789-._~";
 	const SUB_DELIMS: &[u8] = b"!$&'()*+,;=";
 	const HEX: &[u8] = b"0123456789ABCDEFabcdef";
-	const UCS: &[char] = &['\u{a0}', '\u{e9}', '\u{ff}', '\u{3000}', '\u{d7ff}', '\u{f900}', '\u{feff}', '\u{ffef}', '\u{10000}', '\u{1f600}', '\u{efffd}'];
+	const UCS: &[char] = &['\u{a0}', '\u{e9}', '\u{ff}', '\u{3000}', '\u{d7ff}', '\u{f900}', '\u{feff}', '\u{ffef}', '\u{10000}', '\u{1f600}', '\u{efffd}',
+		// characters that ALIAS a delimiter (a UTF-8 byte = delimiter | 0x80, or the low byte of the code point = delimiter) and bidi marks
+		'\u{ba}', '\u{af}', '\u{bf}', '\u{a3}', '\u{a5}', '\u{ae}', '\u{6c0}', '\u{740}', '\u{fa}', '\u{43a}', '\u{42f}', '\u{43f}', '\u{423}', '\u{440}', '\u{45b}', '\u{45d}', '\u{425}', '\u{42e}', '\u{4e3a}', '\u{202f}', '\u{672f}', '\u{200e}', '\u{200f}', '\u{202a}', '\u{202e}', '\u{2066}', '\u{2069}'];
 	fn chars(r: &mut StdRng, n: usize, colon: bool, ascii: bool, out: &mut String) {
 		for _ in 0..n {
 			match r.gen_range(0..100) {
@@ -378,6 +382,7 @@ fn gen_class_authority(r: &mut StdRng, ascii: bool) -> String {
 
 macro_rules! auth_event {
 	($out:ident, $n:ident, $w:ident, $fam:expr, $m:ident, $Full:ident) => {{
+		pending(&json!({"ev": "auth", "fam": $fam, "w": enc($w), "ok": false, "panic": true, "v": {}, "msg": "process aborted in this call"}));
 		let r = guard(|| iref::$m::Authority::new($w).ok().map(|a| {
 			let view = |u: Option<&str>, h: &str, p: Option<&str>| json!({"userinfo": enc_opt(u), "host": enc(h), "port": enc_opt(p)});
 			let parts = a.parts();
@@ -401,6 +406,7 @@ macro_rules! auth_event {
 macro_rules! parse_event {
 	($out:ident, $n:ident, $w:ident, $tag:expr, $T:ty, $scheme:expr) => { parse_event!($out, $n, $w, $tag, $T, $scheme, "random") };
 	($out:ident, $n:ident, $w:ident, $tag:expr, $T:ty, $scheme:expr, $src:expr) => {{
+		pending(&json!({"ev": "parse", "src": $src, "ty": $tag, "w": enc($w), "ok": false, "panic": true, "p": {}, "msg": "process aborted in this call"}));
 		let r = guard(|| <$T>::new($w).ok().map(|v| {
 			let sch: Option<String> = $scheme(v);
 			json!({"scheme": enc_opt(sch.as_deref()), "authority": enc_opt(v.authority().map(|x| x.as_str())),
@@ -457,6 +463,7 @@ fn main_parse(args: &[String]) {
 					// recorded and judged by arithmetic on the lengths (Trace_Events.SweepBigConforms)
 					macro_rules! ranges {
 						($T:ty, $tag:expr, |$v:ident| $scheme:expr) => {{
+							pending(&json!({"ev": "sweep_big", "ty": $tag, "kind": kind, "l": l, "ok": false, "panic": true, "r": {}, "msg": "process aborted in this call"}));
 							let tb = w.as_bytes();
 							let off = |x: Option<&[u8]>| -> serde_json::Value { match x { Some(x) => json!([(x.as_ptr() as usize).wrapping_sub(tb.as_ptr() as usize), x.len()]), None => json!([-1, -1]) } };
 							let r = guard(|| <$T>::new(w).ok().map(|$v| {
@@ -494,7 +501,7 @@ fn main_parse(args: &[String]) {
 	// ---- and the last character of each component, and next to an escape; verdict and components
 	// ---- (the grammar decides which are allowed: TLC judges with InLang and Parts / AuthParts)
 	{
-		let chars: Vec<char> = (0x21u8..=0x7e).map(|b| b as char).chain(['\u{a0}', '\u{e9}', '\u{e000}', '\u{fffd}', '\u{10000}']).collect();
+		let chars: Vec<char> = (0x21u8..=0x7e).map(|b| b as char).chain(['\u{a0}', '\u{e9}', '\u{e000}', '\u{fffd}', '\u{10000}']).chain(['\u{ba}', '\u{af}', '\u{bf}', '\u{a3}', '\u{a5}', '\u{ae}', '\u{6c0}', '\u{740}', '\u{fa}', '\u{43a}', '\u{42f}', '\u{43f}', '\u{423}', '\u{440}', '\u{45b}', '\u{45d}', '\u{425}', '\u{42e}', '\u{4e3a}', '\u{202f}', '\u{672f}', '\u{200e}', '\u{200f}', '\u{202a}', '\u{202e}', '\u{2066}', '\u{2069}']).collect();
 		for &c in &chars {
 			for shape in 0..4 {
 				let x: String = match shape { 0 => format!("{c}x"), 1 => format!("x{c}"), 2 => format!("%41{c}"), _ => format!("{c}%41") };
@@ -821,6 +828,83 @@ fn main_big(args: &[String]) {
 			count += 1;
 		}
 	}
+	// ---- big single edits (C05): a component of length `old` is replaced by a value of length `new`
+	// ---- while what follows it is `tail` bytes per component; every component is one repeated letter
+	for k in 0..5usize {
+		for old in [1usize, 5000] {
+			for new in [1usize, 6000, 70000] {
+				for tail in [1usize, 5000] {
+					let mut lens = [1usize, 1, 1, 1, 1];
+					lens[k] = old;
+					for later in (k + 1)..5 { lens[later] = tail; }
+					let fill = |c: char, l: usize| -> String { std::iter::repeat(c).take(l).collect() };
+					// path lengths count the leading "/"
+					let text = format!("{}://{}/{}?{}#{}", fill('s', lens[0]), fill('h', lens[1]), fill('p', lens[2] - 1.min(lens[2])), fill('q', lens[3]), fill('f', lens[4]));
+					let lens_in = [lens[0], lens[1], 1 + lens[2] - 1.min(lens[2]), lens[3], lens[4]];
+					let arg = match k { 0 => fill('t', new), 1 => fill('g', new), 2 => format!("/{}", fill('r', new - 1)), 3 => fill('k', new), _ => fill('e', new) };
+					for fam in ["iri", "uri"] {
+						pending(&json!({"ev": "big_edit", "fam": fam, "k": k, "lens": lens_in, "new": new, "panic": true, "msg": "process aborted"}));
+						macro_rules! body {
+							($m:ident, $Buf:ident) => {{
+								let mut b = iref::$m::$Buf::new(text.clone().into()).unwrap();
+								match k {
+									0 => b.set_scheme(iref::$m::Scheme::new(arg.as_str()).unwrap()),
+									1 => b.set_authority(Some(iref::$m::Authority::new(arg.as_str()).unwrap())),
+									2 => b.set_path(iref::$m::Path::new(arg.as_str()).unwrap()),
+									3 => b.set_query(Some(iref::$m::Query::new(arg.as_str()).unwrap())),
+									_ => b.set_fragment(Some(iref::$m::Fragment::new(arg.as_str()).unwrap())),
+								}
+								let bytes = b.as_bytes().to_vec();
+								let reparsed = std::str::from_utf8(&bytes).ok().map(|t| iref::$m::$Buf::new(t.to_string().into()).is_ok()).unwrap_or(false);
+								let uniform = |x: &[u8], c: u8| x.iter().all(|y| *y == c);
+								let ok_fill = uniform(b.scheme().as_bytes(), if k == 0 { b't' } else { b's' })
+									&& uniform(b.authority().map(|a| a.as_bytes()).unwrap_or(b"?"), if k == 1 { b'g' } else { b'h' })
+									&& uniform(&b.path().as_bytes()[1.min(b.path().as_bytes().len())..], if k == 2 { b'r' } else { b'p' })
+									&& uniform(b.query().map(|a| a.as_bytes()).unwrap_or(b"?"), if k == 3 { b'k' } else { b'q' })
+									&& uniform(b.fragment().map(|a| a.as_bytes()).unwrap_or(b"?"), if k == 4 { b'e' } else { b'f' });
+								(vec![b.scheme().len(), b.authority().map(|a| a.as_bytes().len()).unwrap_or(usize::MAX), b.path().as_bytes().len(),
+									b.query().map(|a| a.as_bytes().len()).unwrap_or(usize::MAX), b.fragment().map(|a| a.as_bytes().len()).unwrap_or(usize::MAX)], bytes.len(), reparsed, ok_fill)
+							}};
+						}
+						let r = guard(|| if fam == "iri" { body!(iri, IriBuf) } else { body!(uri, UriBuf) });
+						let ev = match r {
+							Ok((after, total, valid, fills)) => json!({"ev": "big_edit", "fam": fam, "k": k, "lens": lens_in, "new": new, "panic": false, "after": after, "total": total, "valid": valid, "fills": fills}),
+							Err(m) => json!({"ev": "big_edit", "fam": fam, "k": k, "lens": lens_in, "new": new, "panic": true, "msg": m}),
+						};
+						writeln!(out, "{ev}").unwrap();
+						count += 1;
+					}
+				}
+			}
+		}
+	}
+	// ---- runs of slashes (C02): scheme ":" and n times "/" - an empty authority as soon as n >= 2,
+	// ---- then n - 2 bytes of path; and the same without scheme
+	for n in (0..=70usize).chain(254..=258).chain(510..=514).chain(65534..=65538) {
+		for with_scheme in [true, false] {
+			let text = format!("{}{}", if with_scheme { "s:" } else { "" }, "/".repeat(n));
+			for fam in ["iri", "uri"] {
+				pending(&json!({"ev": "slashes", "fam": fam, "n": n, "scheme": with_scheme, "panic": true, "msg": "process aborted"}));
+				macro_rules! body {
+					($m:ident, $Ref:ident) => {{
+						let r = iref::$m::$Ref::new(text.as_str()).unwrap();
+						let p = r.parts();
+						let l = |x: Option<usize>| x.map(|v| v as i64).unwrap_or(-1);
+						(l(r.scheme().map(|s| s.len())), l(r.authority().map(|a| a.as_bytes().len())), r.path().as_bytes().len(), r.path().segments().count(),
+							l(p.scheme.map(|s| s.len())), l(p.authority.map(|a| a.as_bytes().len())), p.path.as_bytes().len())
+					}};
+				}
+				let r = guard(|| if fam == "iri" { body!(iri, IriRef) } else { body!(uri, UriRef) });
+				let ev = match r {
+					Ok((s, a, pl, segs, ps, pa, ppl)) => json!({"ev": "slashes", "fam": fam, "n": n, "scheme": with_scheme, "panic": false,
+						"scheme_len": s, "authority_len": a, "path_len": pl, "segments": segs, "parts_scheme_len": ps, "parts_authority_len": pa, "parts_path_len": ppl}),
+					Err(m) => json!({"ev": "slashes", "fam": fam, "n": n, "scheme": with_scheme, "panic": true, "msg": m}),
+				};
+				writeln!(out, "{ev}").unwrap();
+				count += 1;
+			}
+		}
+	}
 	// ---- resolution with ONE very long segment (C06): in a reference with its own scheme, in a
 	// ---- merged reference, and in the directory of the base
 	for n in [100usize, 65535, 65536, 70000, 300000] {
@@ -923,6 +1007,31 @@ fn main() {
 				scripted.push((format!("s://u@h:8/p/{}?q#f", fill('s', la)), "push", Some(fill('t', lb))));
 				scripted.push((format!("s://u@h:8/p/{}?q#f", fill('s', la)), "pop", Some(String::new())));
 			}
+		}
+	}
+	// ---- the shield decisions: every character that could be mistaken for a delimiter (and the
+	// ---- real ones, escaped and not) in a FIRST segment, in the four situations where a shield is
+	// ---- or is not due: set_path / push on a reference without scheme and authority, set_scheme(None),
+	// ---- set_authority(None); and the same behind a scheme (no shield wanted)
+	{
+		const FIRSTS: &[char] = &['\u{a0}', '\u{e9}', '\u{ff}', '\u{3000}', '\u{d7ff}', '\u{f900}', '\u{feff}', '\u{ffef}', '\u{10000}', '\u{1f600}', '\u{efffd}',
+		// characters that ALIAS a delimiter (a UTF-8 byte = delimiter | 0x80, or the low byte of the code point = delimiter) and bidi marks
+		'\u{ba}', '\u{af}', '\u{bf}', '\u{a3}', '\u{a5}', '\u{ae}', '\u{6c0}', '\u{740}', '\u{fa}', '\u{43a}', '\u{42f}', '\u{43f}', '\u{423}', '\u{440}', '\u{45b}', '\u{45d}', '\u{425}', '\u{42e}', '\u{4e3a}', '\u{202f}', '\u{672f}', '\u{200e}', '\u{200f}', '\u{202a}', '\u{202e}', '\u{2066}', '\u{2069}'];
+		let mut firsts: Vec<String> = vec!["a:b".into(), "1:b".into(), ":".into(), "a:".into(), "%3A".into(), "%3a:b".into(), "%41:b".into(), "%41%42:b".into(), "_:b".into(), "~u:v".into(), "@:x".into(), "a".into(), "".into(), "..".into(), ".".into()];
+		for &c in FIRSTS {
+			firsts.push(format!("{c}"));
+			firsts.push(format!("{c}a:b"));
+			firsts.push(format!("a{c}:b"));
+			firsts.push(format!("a:{c}"));
+		}
+		for x in &firsts {
+			scripted.push(("?q#f".to_string(), "set_path", Some(format!("{x}/y"))));
+			scripted.push(("?q#f".to_string(), "push", Some(x.clone())));
+			scripted.push((format!("s:{x}/y?q"), "set_scheme", None));
+			scripted.push((format!("//h/{x}/y?q"), "set_authority", None));
+			scripted.push((format!("//h//{x}/y?q"), "set_authority", None));
+			scripted.push(("s:?q".to_string(), "set_path", Some(format!("{x}/y"))));
+			scripted.push(("//h?q".to_string(), "set_path", Some(format!("{x}/y"))));
 		}
 	}
 	for h in 0..(histories + scripted.len()) {
